@@ -182,25 +182,26 @@ Definition ex_w2 : world :=
   let w1 := fst (wstep w0 (CMkdir 0 (abs_path [ex_a]) 493)) in
   fst (wstep w1 (CSub 0 (abs_path [ex_a]))).
 
+Definition ex_vp : view := nth 0 (w_views ex_w2) (init_view Linux 0).
+Definition ex_vv : view := nth 1 (w_views ex_w2) (init_view Linux 0).
+
 Example C11_example_views :
   length (w_views ex_w2) = 2
-  /\ exists vp vv, nth_error (w_views ex_w2) 0 = Some vp /\ nth_error (w_views ex_w2) 1 = Some vv
-     /\ v_root vp = 0 /\ v_root vv = 4.
-Proof. split; [reflexivity|]. do 2 eexists. repeat split. Qed.
+  /\ nth_error (w_views ex_w2) 0 = Some ex_vp /\ nth_error (w_views ex_w2) 1 = Some ex_vv
+  /\ v_root ex_vp = 0 /\ v_root ex_vv = 4.
+Proof. vm_compute. repeat split. Qed.
 
 (* the hypotheses of C11_prefix hold here ... *)
 Example C11_example_hyps :
-  exists vp vv, nth_error (w_views ex_w2) 0 = Some vp /\ nth_error (w_views ex_w2) 1 = Some vv
-  /\ view_agree vp vv /\ Forall good_comp [ex_a]
-  /\ dir_chain (f_heap (w_fs ex_w2)) (v_user vp) (v_root vp) [ex_a] (v_root vv)
-  /\ okpath (w_fs ex_w2) vv [ex_a] [ex_x].
+  view_agree ex_vp ex_vv /\ Forall good_comp [ex_a]
+  /\ dir_chain (f_heap (w_fs ex_w2)) (v_user ex_vp) (v_root ex_vp) [ex_a] (v_root ex_vv)
+  /\ okpath (w_fs ex_w2) ex_vv [ex_a] [ex_x].
 Proof.
-  do 2 eexists. split; [reflexivity|]. split; [reflexivity|].
   assert (Hg : forall c : N, c <> 47%N -> c <> 46%N -> Forall good_comp [[c]]).
   { intros c H1 H2. repeat constructor; try discriminate.
     - intros y [<-|[]]. exact H1.
     - intros E. injection E as E. auto. }
-  split; [constructor; reflexivity|]. split; [apply Hg; discriminate|].
+  split; [constructor; vm_compute; reflexivity|]. split; [apply Hg; discriminate|].
   split.
   - vm_compute. do 3 eexists. repeat split.
   - split; [apply Hg; discriminate|]. split; [discriminate|]. split; [vm_compute; exact I|].
